@@ -66,6 +66,8 @@ pub(crate) fn write_gen(name: &str, body: &str) {
 pub(crate) mod lits {
     include!("/verif/.build/gen/ctx.rs");
     include!("/verif/.build/gen/moduli.rs");
+    include!("/verif/.build/gen/ntt.rs");
+    include!("/verif/.build/gen/rns.rs");
 }
 
 /// Cheap deterministic stand-in for `format!` in harnesses (error-path message building is not
